@@ -483,6 +483,11 @@ def main(argv):
         if f is None:
             line += " (no longer reproduces)"
         res.known(line)
+        # the log10 values used by the Coq lemma C20_accuracy_refuted are those of the real function
+        for arg, val in w.get("log10_table", []):
+            got = c.harness_lines_resilient(h, "c20-log10", [arg])[0]
+            if got != val:
+                res.tie_broken("C20_accuracy_refuted: f64::log10(%s) is %s, the lemma's table says %s" % (arg, got, val))
 
     res.coverage["evaluations"] = len(sinputs) + len(inputs) + len(rust_lst) + res.streams.get("ORACLE", {}).get("cases", 0)
     res.coverage["distinct_nontrivial"] = sum(1 for b in sinputs if not is_nan_bits(b) and not is_inf_bits(b)
